@@ -132,6 +132,15 @@ func (c *FnCtx) callStatic(fr *Frame, st *State, callee *ssa.Function, args []SV
 				return c.defaultResult(st, rt, callee.Name())
 			}
 		}
+		// only small, loop-free helpers are inlined implicitly; anything bigger without a
+		// contract is abstracted: result unconstrained, everything its body can write havocked
+		if ct := c.eng.contractFor(callee); (ct == nil || !ct.Inline) && !smallEnough(callee, len(c.inlineStack)) {
+			c.abstract("call to " + c.eng.shortFuncName(callee) + " abstracted (no contract, too large to inline): result unconstrained, its write set havocked")
+			ms := newModSet()
+			c.fnMods(callee, ms, 0)
+			c.havoc(st, fr, ms, "auto-abstracted call")
+			return c.defaultResult(st, rt, callee.Name())
+		}
 		if len(c.inlineStack) >= maxInlineDepth {
 			c.abstract("inline depth exceeded at " + callee.Name() + " (havocked)")
 			ms := newModSet()
@@ -1165,4 +1174,27 @@ func (c *FnCtx) copyElems(st *State, et types.Type, dst Sl, src SV, n Term) {
 		c.heapSet(st, name, c.vc.Name("h", Store(h, dst.Arr, nw)))
 		c.noteWrite(st, name, &Loc{Prefix: prefix, Idx: dst.Arr, T: et})
 	}
+}
+
+// smallEnough: implicit inlining is limited to short loop-free functions.
+func smallEnough(fn *ssa.Function, depth int) bool {
+	if depth >= 4 {
+		return false
+	}
+	n := 0
+	for _, b := range fn.Blocks {
+		n += len(b.Instrs)
+		for _, s := range b.Succs {
+			if s.Dominates(b) {
+				return false // loop
+			}
+		}
+		for _, in := range b.Instrs {
+			switch in.(type) {
+			case *ssa.Select, *ssa.Go, *ssa.Defer:
+				return false
+			}
+		}
+	}
+	return n <= 80
 }
